@@ -409,6 +409,10 @@ def second_motion(rng, c):
         t2, a2 = list(c["t"]), a1
     elif k < 0.33:
         t2, a2 = [0.0, 0.0], rng.choice([TWO_PI, -TWO_PI])
+    elif k < 0.45:
+        # the same angle again, and the caller's translation array re-used: overwritten in place between the calls
+        a2, at2 = _typed_angle(a1)
+        return {"t": L.translation_stream(rng), "a": a2, "at": at2, "reuse": True}
     else:
         t2, a2 = L.translation_stream(rng), L.angle_stream(rng, allow_invalid=True)
     a2, at2 = _typed_angle(a2)
@@ -509,8 +513,9 @@ def evaluate(case):
     if k == "ppset":
         probes = make_probes(random.Random(case["sub"] ^ 0x2545F491), obj)
         ev["reach_before"] = probe_verdicts(obj, probes, with_margin=True)
+    buf = t.copy() if case.get("m2", {}).get("reuse") else t
     try:
-        res = apply(case, obj, t, a)
+        res = apply(case, obj, buf, a)
     except Exception as e:  # noqa  (expected for |a| > 2pi; judged by the oracle otherwise)
         ev["exc"] = type(e).__name__
         ev["exc_msg"] = str(e)[:160]
@@ -522,8 +527,12 @@ def evaluate(case):
         ev["reach_after"] = _verdicts_after(res, probes)
     if "m2" in case:
         t2, a2 = np.array(case["m2"]["t"], dtype=float), angle_of(case["m2"])
+        t2call = t2
+        if buf is not t and buf.shape == t2.shape:
+            buf[:] = t2                     # the caller's one translation array, overwritten in place
+            t2call = buf
         try:
-            res2 = apply(case, res, t2, a2)
+            res2 = apply(case, res, t2call, a2)
         except Exception as e:  # noqa  (expected for |a2| > 2pi; judged otherwise)
             ev["exc2"] = type(e).__name__
             ev["exc2_msg"] = str(e).strip()[:160]
